@@ -208,7 +208,7 @@ def wl_shift(ctx, idx, rng):
         x = x + (4 * np.exp(2j * np.pi * (N // 2 - 1) * n / N) + 4 * np.exp(-2j * np.pi * (N // 2) * n / N)).astype(dtype)
         x = x.astype(dtype)
     rate = gen.rand_rate(rng, lo=0, hi=8.5)
-    sig, desc = gen.make_signal(rng, clsname, N, data=x, rate=rate, dask=use_dask, mem="rand")
+    sig, desc = gen.make_signal(rng, clsname, N, data=x, rate=rate, dask=use_dask, mem="readonly" if gen._side_rng(rng).random() < 0.1 else "rand")
     a = make_shift_bins(rng, N, sshape, vk, sk)
     df = (a / N) * sig.sample_rate
     df = df.to(gen.pick(rng, [u.Hz, u.kHz, u.MHz, 1 / u.s, u.mHz]))
